@@ -13,6 +13,11 @@ CHECKS = {
         "quick": {"runs": 20000, "wall_s": 80, "runs_per_spec": 12, "run_wall_cap": 12, "proto": {}, "faults": True},
         "thorough": {"runs": 1000000, "wall_s": 1500, "runs_per_spec": 20, "run_wall_cap": 30, "proto": {"max_types": 7, "max_states": 4}, "faults": True},
     },
+    "C12": {
+        "sim": "parsesim",
+        "quick": {"runs": 40000, "wall_s": 60, "runs_per_spec": 30, "run_wall_cap": 15, "grammar": dict(GRAMMAR_DEFAULT, max_rules=4)},
+        "thorough": {"runs": 2000000, "wall_s": 1500, "runs_per_spec": 40, "run_wall_cap": 15, "grammar": GRAMMAR_DEFAULT},
+    },
     "C13": {
         "sim": "fragsim",
         "quick": {"runs": 60000, "wall_s": 60, "runs_per_spec": 40, "run_wall_cap": 10, "grammar": GRAMMAR_DEFAULT, "ambiguous_regex_rate": 0.1},
@@ -23,6 +28,12 @@ CHECKS = {
 _NOTE = "Seeded sampling, not enumeration: a clean batch is evidence, not proof. Trusted: the harness's own AST/derivation checker/reference models, CPython, and (where stated) Fandango code on *fresh* objects as reference."
 
 MANIFEST_TEXT = {
+    "C12": {
+        "level": "Seeded exploration of request histories on one long-lived spec object (first-tree requests, whole forests, forests abandoned after k trees, API parse, prefix mode, other start symbols, control-flow requests, caller-side mutation of returned trees, fuzzing bursts) with each fully consumed request compared against the same request on a pristine spec object. Exploration is the right level because the quantifier ranges over all histories of requests.",
+        "design_ref": "DESIGN.md §6.3",
+        "note": _NOTE + " Reference for C12 is the same request on a pristine spec object (parser soundness itself is C04).",
+        "technique": "deterministic simulation of request histories with cancellation faults (generator abandoned at a seeded yield point) and a differential oracle against a pristine instance",
+    },
     "C19": {
         "level": "Seeded exploration: at every main-loop step of thousands of simulated protocol interactions (generated protocol grammars, scripted peers, faults, several interactions per session) the forecast (next (sender, recipient, type) options and the completeness flag) is compared with an independent message-level automaton derived from the harness's own AST. Exploration is the right level: the quantifier ranges over all protocol grammars and all reachable histories.",
         "design_ref": "DESIGN.md §6.7",
@@ -53,6 +64,6 @@ NOT_APPLICABLE = {
     "C15": "Print/re-read round trip of specs is a pure function of the grammar/constraint objects; no schedule, clock, fault or history.",
     "C01": "planned (SearchSim), not built yet", "C02": "planned (SearchSim), not built yet", "C03": "planned (SearchSim), not built yet",
     "C09": "planned (TreeSim), not built yet", "C10": "planned (TreeSim), not built yet", "C11": "planned (SearchSim), not built yet",
-    "C12": "planned (ParseSim), not built yet", "C16": "planned (SearchSim), not built yet", "C17": "planned (ReproSim), not built yet",
+"C16": "planned (SearchSim), not built yet", "C17": "planned (ReproSim), not built yet",
     "C18": "planned (IsolationSim), not built yet", 
 }
